@@ -17,7 +17,7 @@ META = dict(
     id='C07',
     level='proof',
     technique='Coq proof (set algebra of the posting filter over a model of predicate evaluation; query lexer/parser model with a parse theorem for rendered query trees) + differential correspondence of the extracted model against ledger',
-    level_text='Theorems in coq/Properties/Properties_C07.v state, for all posting lists and all predicates whose evaluation does not error: --limit P and --limit !P select disjoint order-preserving sub-sequences of the unfiltered list that merge back to it, with every posting passed through unchanged; & and | (with the non-boolean results of op.cc O_AND/O_OR/O_NOT) select intersection and union; several limits compose; --begin D / --end D keep exactly date >= D / date < D and are complementary; and the model of the command-line query parser (query.cc lexer and precedence ladder, transcribed) maps a rendered query tree (terms, field selectors, not/and/or, juxtaposition, parentheses) to the intended expression, so a query selects what its expression selects. The model is tied to the code by comparing the parsed predicate text of thousands of generated argument vectors (`query` pre-command, both lexing modes) and the register rows of generated journals under twelve paired limit settings with the extracted model.',
+    level_text='Theorems in coq/Properties/Properties_C07.v state, for all posting lists and all predicates whose evaluation does not error: --limit P and --limit !P select disjoint order-preserving sub-sequences of the unfiltered list that merge back to it, with every posting passed through unchanged; & and | (with the non-boolean results of op.cc O_AND/O_OR/O_NOT) select intersection and union; several limits compose; --begin D / --end D keep exactly date >= D / date < D and are complementary; and the model of the command-line query parser (query.cc lexer and precedence ladder, transcribed) maps a rendered query tree (account/payee/code/note terms, not/and/or in both spellings, juxtaposition, minimal parentheses; one token per argument) to the intended expression in both lexing modes, so such a query selects what its expression selects (query_parse_spec_partial: tag selectors, expr, quoted patterns and several tokens per argument are covered by the correspondence only). The model is tied to the code by comparing the parsed predicate text of thousands of generated argument vectors (`query` pre-command, both lexing modes) and the register rows of generated journals under twelve paired limit settings with the extracted model.',
     level_note='Trusted: Coq kernel; extraction + OCaml driver and the python harness for the correspondence. Regular expressions are literal patterns (case-insensitive ASCII substring search stands for boost::regex icase search); the value-expression parser that reads --limit text and `expr ARG` is C15\'s subject and is a parameter of the query model; journal text -> in-memory posting (notes, tags, state inheritance) is computed by the harness renderer and validated through the same correspondence. show/only/bold/for/since/until query sections are outside the modelled fragment.',
     design_ref='DESIGN.md section 7 C07',
     assumptions=['patterns are literal: letters, digits, space, colon (no regex metacharacters); ASCII only',
@@ -465,8 +465,6 @@ def assemble(rng, toks, multi):
                     flush()
                 cur += val[0]
                 last = val[2]
-                if val[1] == 'w' and multi and rng.random() < 0.0:
-                    flush()
         elif k in ('w', 'q'):
             pt = pattern(t)
             if pt is None:
@@ -589,8 +587,8 @@ def run(ctx, scale=1):
 
 
 def part_a(ctx, rng, res, scale):
-    n_tree = ctx.scale(1200, 12000) * scale
-    n_edge = ctx.scale(1200, 12000) * scale
+    n_tree = ctx.scale(1200, 8000) * scale
+    n_edge = ctx.scale(1200, 8000) * scale
     cases = []
     for i in range(n_tree):
         multi = rng.random() < 0.7
@@ -630,13 +628,11 @@ def part_a(ctx, rng, res, scale):
 
 
 def part_b(ctx, rng, res, scale):
-    nj = ctx.scale(260, 2600) * scale
+    nj = ctx.scale(260, 1500) * scale
     jobs, metas = [], []
     for j in range(nj):
         text, posts = gen_journal(rng, rng.choice([3, 4, 5, 6, 9]))
-        path = ctx.path('j%d.dat' % (j % 400))
-        # distinct file per job within a batch
-        path = ctx.path('j%d.dat' % j) if nj <= 400 else ctx.path('j%d.dat' % j)
+        path = ctx.path('j%d.dat' % j)
         open(path, 'w').write(text)
         P = gen_pred(rng, posts, rng.choice([0, 1, 2, 2, 3, 4]))
         Q = gen_pred(rng, posts, rng.choice([0, 1, 1, 2, 3]))
